@@ -241,15 +241,19 @@ static void plant_fake_footer(hctx* h, fcase* fc) {
          * fails INSIDE a field value after everything required has been seen */
         static const uint8_t v4[] = { 0x15, 0x02, 0x19, 0x2C, 0x48, 0x01, 0x72, 0x15, 0x02, 0x00, 0x15, 0x02, 0x25, 0x00, 0x18, 0x01, 0x78, 0x00,
                                       0x16, 0x00, 0x19, 0x0C, 0x28, 0x7F, 0x41, 0x42, 0x1A, 0x00, 0x00, 0x00, 'P', 'A', 'R', '1' };
-        static int planted; int pick4 = planted++ % 3; (void)h;
-        const uint8_t* v = pick4 == 0 ? v1 : pick4 == 1 ? v2 : v4; int n = pick4 == 0 ? (int)sizeof v1 : pick4 == 1 ? (int)sizeof v2 : (int)sizeof v4;
+        /* a COMPLETE FileMetaData{1: version=1, 2: schema=[{4: name="a"}], 3: num_rows=0, 4: row_groups=[]}:
+         * the prefix ending here is itself a (tiny) complete Parquet file - the exception C18 allows */
+        static const uint8_t v3[] = { 0x15, 0x02, 0x19, 0x1C, 0x48, 0x01, 0x61, 0x00, 0x16, 0x00, 0x19, 0x0C, 0x00, 0x0D, 0x00, 0x00, 0x00, 'P', 'A', 'R', '1' };
+        static int planted; int pick4 = planted++ % 4; (void)h;
+        const uint8_t* v = pick4 == 0 ? v1 : pick4 == 1 ? v2 : pick4 == 2 ? v4 : v3;
+        int n = pick4 == 0 ? (int)sizeof v1 : pick4 == 1 ? (int)sizeof v2 : pick4 == 2 ? (int)sizeof v4 : (int)sizeof v3;
         free(s->vals[j]); s->vals[j] = h_alloc((size_t)n); memcpy(s->vals[j], v, (size_t)n); s->vlen[j] = n;
         return;
     }
 }
 
 static void gen_c18(hctx* h) {
-    long files = h->thorough ? 100 : 6;
+    long files = h->thorough ? 100 : 8;
     for (long i = 0; i < files; i++) {
         fcase fc; gen_case(h, &fc, 1);
         if (i % 2 == 0) { /* make sure a BYTE_ARRAY column exists and carries a fake footer */
